@@ -887,6 +887,9 @@ class TemplateModel(object):
         template = template[:, channel_ids]
         assert template.ndim == 2
         assert template.shape[1] == channel_ids.shape[0]
+        if channel_ids is not channel_ids_:
+            # Explicit channel list: the amplitudes are those of the requested columns.
+            amplitude = template.max(axis=0) - template.min(axis=0)
         return Bunch(
             template=template,
             amplitude=amplitude,
